@@ -49,7 +49,8 @@ def run(ctx):
                 f"(graph.Node) generators whose output names differ in length / are un-padded numbers / differ in case, declared "
                 f"in sorted, reversed, rotated order, bound key-sorted as cascade documents; (5) one callable "
                 f"OBJECT shared by two nodes (and by all cases of the run) that declare 1 / 2 / 3 / 11 outputs or other output names, in "
-                f"both orders; constants {consts}; "
+                f"both orders; (6) hand-built jobs (TaskBuilder.from_callable + with_values, raw TaskInstance) with keyword / positional edges "
+                f"into parameters that also hold a static value (recorded default, 99, None, 0): the upstream value must win; constants {consts}; "
                 "non-trivial = the graph has an edge; graphs are built with fluent.Node/Payload/Action, lowered by graph2job, "
                 "every task run by execute_sequence/run/Memory over a dict-backed shm; TLC evaluates Lowering!Post",
         "clauses": ["tasks_are_not_the_nodes", "edges_are_not_the_inputs", "outputs_are_not_the_declared",
